@@ -1,0 +1,6 @@
+//go:build verif
+
+package enc
+
+// VerifUnhex exposes unhex to the verification harness.
+func VerifUnhex(b byte) (byte, bool) { return unhex(b) }
